@@ -11,6 +11,8 @@ import (
 	"net/http"
 	"net/http/httptest"
 	"strings"
+	"sync"
+	"sync/atomic"
 
 	restful "github.com/emicklei/go-restful/v3"
 )
@@ -46,6 +48,7 @@ type routePlan struct {
 	Profile    string      `json:"profile"` // generator profile: mixed | common | slash | order | headers | allow
 	Tracing    bool        `json:"tracing"` // run with trace logging enabled (discarding logger)
 	OptionsAll bool        `json:"optionsAll"`
+	Conc       int         `json:"conc"` // > 0: additionally send every request of a table from that many goroutines at once
 	Universe   []string    `json:"universe"`
 }
 
@@ -57,7 +60,23 @@ type hit struct {
 }
 
 type obsCell struct {
+	mu  sync.Mutex
 	ran []hit
+}
+
+var (
+	cellMu  sync.Mutex
+	cellMap = map[string]*obsCell{}
+	ridSeq  int64
+)
+
+func cellFor(r *http.Request) *obsCell {
+	cellMu.Lock()
+	defer cellMu.Unlock()
+	if c, ok := cellMap[r.Header.Get("X-Rid")]; ok {
+		return c
+	}
+	return &obsCell{}
 }
 
 type outRec struct {
@@ -148,7 +167,10 @@ func buildContainer(t tableCase, router string, order [][2]int, cell **obsCell) 
 			if sr := req.SelectedRoute(); sr != nil {
 				h.selm = sr.Method()
 			}
-			(*cell).ran = append((*cell).ran, h)
+			oc := cellFor(req.Request)
+			oc.mu.Lock()
+			oc.ran = append(oc.ran, h)
+			oc.mu.Unlock()
 			resp.WriteHeader(http.StatusOK)
 		})
 		if len(rs.Cons) > 0 {
@@ -235,7 +257,18 @@ func (rs reqSpec) httpRequest(extraSlash bool) (*http.Request, error) {
 }
 
 func observe(c *restful.Container, entry string, hr *http.Request, cell **obsCell) outRec {
-	*cell = &obsCell{}
+	mine := &obsCell{}
+	*cell = mine
+	rid := fmt.Sprint(atomic.AddInt64(&ridSeq, 1))
+	hr.Header.Set("X-Rid", rid)
+	cellMu.Lock()
+	cellMap[rid] = mine
+	cellMu.Unlock()
+	defer func() {
+		cellMu.Lock()
+		delete(cellMap, rid)
+		cellMu.Unlock()
+	}()
 	rec := httptest.NewRecorder()
 	var pv interface{}
 	func() {
@@ -247,7 +280,7 @@ func observe(c *restful.Container, entry string, hr *http.Request, cell **obsCel
 		}
 	}()
 	o := outRec{Params: [][2]string{}, Allow: []string{}}
-	ran := (*cell).ran
+	ran := mine.ran
 	if pv != nil {
 		o.K = "panic"
 		o.Pv = fmt.Sprint(pv)
@@ -336,6 +369,23 @@ func runRoute(planPath, outPath string, seed int64) {
 			continue
 		}
 		seenReq := map[string]bool{}
+		type pending struct {
+			rq    reqSpec
+			outs  []outRec
+			index map[string]int
+		}
+		pend := []*pending{}
+		record := func(pd *pending, o outRec, variant []interface{}) {
+			key, _ := json.Marshal(o)
+			ix, ok := pd.index[string(key)]
+			if !ok {
+				ix = len(pd.outs)
+				pd.index[string(key)] = ix
+				o.Vs = [][]interface{}{}
+				pd.outs = append(pd.outs, o)
+			}
+			pd.outs[ix].Vs = append(pd.outs[ix].Vs, variant)
+		}
 		for _, rq := range t.Reqs {
 			rq.Conds = nonNilI(rq.Conds)
 			rk, _ := json.Marshal(rq)
@@ -343,8 +393,7 @@ func runRoute(planPath, outPath string, seed int64) {
 				continue
 			}
 			seenReq[string(rk)] = true
-			outs := []outRec{}
-			index := map[string]int{}
+			pd := &pending{rq: rq, index: map[string]int{}}
 			slashes := []int{0}
 			if p.Slash && !strings.HasSuffix(rq.Path, "/") {
 				slashes = append(slashes, 1)
@@ -356,23 +405,62 @@ func runRoute(planPath, outPath string, seed int64) {
 						if err != nil {
 							continue
 						}
-						o := observe(v.c, en, hr, &cell)
-						key, _ := json.Marshal(o)
-						ix, ok := index[string(key)]
-						if !ok {
-							ix = len(outs)
-							index[string(key)] = ix
-							o.Vs = [][]interface{}{}
-							outs = append(outs, o)
-						}
-						outs[ix].Vs = append(outs[ix].Vs, []interface{}{v.router, v.perm, sl, en})
+						record(pd, observe(v.c, en, hr, &cell), []interface{}{v.router, v.perm, sl, en})
 					}
 				}
 			}
-			if len(outs) == 0 {
-				continue
+			if len(pd.outs) > 0 {
+				pend = append(pend, pd)
 			}
-			tw.emit(map[string]interface{}{"e": "req", "tid": ti + 1, "req": rq, "outs": outs})
+		}
+		if p.Conc > 0 && len(pend) > 1 {
+			// the same requests, all at once, on the perm-0 container of every router (entry "C")
+			for _, v := range variants {
+				if v.perm != 0 {
+					continue
+				}
+				var wg sync.WaitGroup
+				var recMu sync.Mutex
+				start := make(chan struct{})
+				for g := 0; g < p.Conc; g++ {
+					wg.Add(1)
+					go func(g int) {
+						defer wg.Done()
+						<-start
+						var mycell *obsCell
+						for round := 0; round < 2; round++ {
+							for i := g; i < len(pend); i += p.Conc {
+								hr, err := pend[i].rq.httpRequest(false)
+								if err != nil {
+									continue
+								}
+								o := observe(v.c, "D", hr, &mycell)
+								recMu.Lock()
+								record(pend[i], o, []interface{}{v.router, v.perm, 0, "C"})
+								recMu.Unlock()
+							}
+						}
+					}(g)
+				}
+				close(start)
+				wg.Wait()
+			}
+		}
+		for _, pd := range pend {
+			// one variant entry per distinct (router, perm, slash, entry)
+			for i := range pd.outs {
+				seenV := map[string]bool{}
+				vs := [][]interface{}{}
+				for _, v := range pd.outs[i].Vs {
+					k := fmt.Sprint(v)
+					if !seenV[k] {
+						seenV[k] = true
+						vs = append(vs, v)
+					}
+				}
+				pd.outs[i].Vs = vs
+			}
+			tw.emit(map[string]interface{}{"e": "req", "tid": ti + 1, "req": pd.rq, "outs": pd.outs})
 		}
 		if t.Options || p.OptionsAll {
 			emitOptionsProbes(tw, ti+1, t, routers, p.Universe)
